@@ -1439,7 +1439,7 @@ fn cover_scale(profile: &str, p: &Pools, rng: &mut Rng, out: &mut Vec<String>, p
     const MID: &[i64] = &[4, 5, 6, 7, 8, 9];
     let fns: &[(&str, &[&[i64]])] = match profile {
         "C01" => &[("m4_transform_point", &[NEAR, MID, &[10, 11, 12]]), ("m4_det", &[NEAR, MID, &[10]]), ("m3_det", &[NEAR, MID, &[10]])],
-        "C02" => &[("m4_inv_resid", &[NEAR, MID, &[10]]), ("m3_inv_resid", &[NEAR, MID, &[10]]), ("m2_inv_resid", &[NEAR, MID, &[10]]), ("m4_invert", &[NEAR, MID, &[10]]), ("m4_inverse_transform", &[NEAR, MID, &[10]]), ("m3_invert", &[NEAR, MID, &[10]]), ("m2_invert", &[NEAR, MID, &[10]])],
+        "C02" => &[("m4_inv_graded", &[&[4, 5, 6, 7]]), ("m3_inv_graded", &[&[4, 5, 6, 7]]), ("m2_inv_graded", &[&[4, 5, 6, 7, 8, 9]]), ("m4_inv_resid", &[NEAR, MID, &[10]]), ("m3_inv_resid", &[NEAR, MID, &[10]]), ("m2_inv_resid", &[NEAR, MID, &[10]]), ("m4_invert", &[NEAR, MID, &[10]]), ("m4_inverse_transform", &[NEAR, MID, &[10]]), ("m3_invert", &[NEAR, MID, &[10]]), ("m2_invert", &[NEAR, MID, &[10]])],
         "C03" => &[("v3_cross", &[NEAR, MID, &[10, 11, 12]]), ("v3_dot", &[NEAR, MID, &[10, 11, 12]]), ("v2_perp_dot", &[NEAR, MID, &[10, 11, 12]]),
                    ("v3_cross_both", &[NEAR, MID, &[10, 11, 12]]), ("v3_dot_both", &[NEAR, MID, &[10, 11, 12]]), ("v2_perp_dot_both", &[NEAR, MID, &[10, 11, 12]])],
         "C04" => &[("q_invert", &[NEAR, MID, &[10]]), ("q_normalize", &[NEAR, MID])],
@@ -1455,14 +1455,14 @@ fn cover_scale(profile: &str, p: &Pools, rng: &mut Rng, out: &mut Vec<String>, p
     for (fname, groups) in fns {
         for g in groups.iter() { for &kc in g.iter() { for _rep in 0..2 {
             let args: Vec<V> = match *fname {
-                "m4_invert" | "m4_inverse_transform" | "m4_det" | "m4_inv_resid" => {
+                "m4_invert" | "m4_inverse_transform" | "m4_det" | "m4_inv_resid" | "m4_inv_graded" => {
                     // dense, not affine
                     let c = |rng: &mut Rng| Vector4::new(small(rng), small(rng), small(rng), small(rng));
                     let m = loop { let m = Matrix4::from_cols(c(rng), c(rng), c(rng), c(rng)); if m.determinant().n != 0 { break m; } };
                     vec![Val::M4(m)]
                 }
-                "m3_invert" | "m3_det" | "m3_inv_resid" => vec![Val::M3(loop { let m = Matrix3::from_cols(rv3(rng), rv3(rng), rv3(rng)); if m.determinant().n != 0 { break m; } })],
-                "m2_invert" | "m2_inv_resid" => vec![Val::M2(loop { let m = Matrix2::from_cols(rv2(rng), rv2(rng)); if m.determinant().n != 0 { break m; } })],
+                "m3_invert" | "m3_det" | "m3_inv_resid" | "m3_inv_graded" => vec![Val::M3(loop { let m = Matrix3::from_cols(rv3(rng), rv3(rng), rv3(rng)); if m.determinant().n != 0 { break m; } })],
+                "m2_invert" | "m2_inv_resid" | "m2_inv_graded" => vec![Val::M2(loop { let m = Matrix2::from_cols(rv2(rng), rv2(rng)); if m.determinant().n != 0 { break m; } })],
                 "m4_transform_point" => {
                     // a projective matrix and a point whose image has w != 0
                     let c = |rng: &mut Rng| Vector4::new(small(rng), small(rng), small(rng), small(rng));
@@ -1529,7 +1529,7 @@ fn cover_hom(profile: &str, p: &Pools, rng: &mut Rng, out: &mut Vec<String>, pid
         "C04" => &[("add", F4A, "QQ", 1, D0), ("sub", F4A, "QQ", 1, D0), ("mul", F4, "QQ", 2, D0), ("mul_s", F2A, "QS", 1, D0), ("conjugate", M, "Q", 1, D0), ("dot", M, "QQ", 2, D0),
                    ("mag2", M, "Q", 2, D0), ("rot_invert", M, "Q", -1, D0), ("neg", &["v", "r"], "Q", 1, D0)],
         "C11" => &[("magnitude", M, "V", 1, D14), ("normalize", M, "V", 0, D14), ("distance", M, "VV", 1, &[2, 3]), ("distance2", M, "VV", 2, &[2, 3]), ("project_on", M, "VV", 1, &[2, 3, 4]),
-                   ("angle", M, "VV", 0, &[2, 3]), ("magnitude", M, "Q", 1, D0), ("normalize", M, "Q", 0, D0)],
+                   ("angle", M, "VV", 0, &[2, 3, 4]), ("angle", M, "QQ", 0, D0), ("magnitude", M, "Q", 1, D0), ("normalize", M, "Q", 0, D0)],
         "C12" => &[("add", F4A, "PV", 1, D13), ("sub", F4, "PP", 1, D13), ("sub", F4A, "PV", 1, D13), ("mul_s", F2A, "PS", 1, D13), ("to_vec", M, "P", 1, D13), ("from_vec", M, "V", 1, D13),
                    ("midpoint", M, "PP", 1, D13), ("dot", M, "PV", 2, D13), ("distance2", M, "PP", 2, D13), ("from_homogeneous", M, "V", 0, &[4])],
         "C14" => &[("lerp", M, "QQS", 1, D0), ("lerp", M, "VVS", 1, &[2, 3, 4]), ("nlerp", M, "QQS", 0, D0)],
@@ -1543,12 +1543,23 @@ fn cover_hom(profile: &str, p: &Pools, rng: &mut Rng, out: &mut Vec<String>, pid
     };
     let small_t = |rng: &mut Rng| *rng.pick(&[q(1, 4), q(1, 2), q(2, 3), q(1, 3)]);
     for (op, forms, spec, deg, dims) in table.iter() {
-        for &n in dims.iter() { for form in forms.iter() { for &kc in &[0i64, 1, 2, 4, 5, 6, 7, 8, 9, 10] {
+        for &n in dims.iter() { for form in forms.iter() { for &kc in &[0i64, 1, 2, 4, 5, 6, 7, 8, 9, 10, 11, 12] { for rep in 0..2 {
             // a negative factor flips what depends on the orientation: lengths and unit directions are excluded there
             if kc == 10 && matches!(*op, "magnitude" | "normalize" | "distance" | "nlerp") { continue; }
+            // 1e-150 / 1e150: only where no product of two scaled quantities other than squares of lengths is formed
+            if kc >= 11 && !matches!(*op, "add" | "sub" | "neg" | "angle" | "magnitude" | "normalize" | "distance" | "transpose" | "conjugate" | "to_vec" | "from_vec" | "midpoint") { continue; }
+            if kc >= 11 && spec.contains('M') && *op != "transpose" { continue; }
+            // the atan2-based angle of Vector2 / Vector3 squares the cross product: only the acos-based one (4-D, quaternions) out there
+            if kc >= 11 && *op == "angle" && !(n == 4 || *spec == "QQ") { continue; }
+            // every other time the arguments are special: unit vectors and quaternions, rotation matrices
+            let special = rep == 1;
             let mut a: Vec<V> = vec![t(op), t(form), Val::I(kc), Val::I(if *op == "det" { n as i64 } else { *deg })];
             for (i, ch) in spec.chars().enumerate() {
                 a.push(match ch {
+                    'M' if special => match n { 2 => { let u = uv2(p, rng); Val::M2(Matrix2::new(u.x, u.y, -u.y, u.x)) }
+                                                3 => Val::M3(Matrix3::from(uq(p, rng))), _ => Val::M4(Matrix4::from(Matrix3::from(uq(p, rng)))) },
+                    'V' if special && n >= 2 => match n { 2 => Val::V2(uv2(p, rng)), 3 => Val::V3(uv3(p, rng)), _ => { let u = uq(p, rng); Val::V4(Vector4::new(u.s, u.v.x, u.v.y, u.v.z)) } },
+                    'Q' if special => Val::Q(uq(p, rng)),
                     'M' => match n { 2 => Val::M2(loop { let m = Matrix2::from_cols(rv2(rng), rv2(rng)); if m.determinant().n != 0 { break m; } }),
                                      3 => Val::M3(loop { let m = Matrix3::from_cols(rv3(rng), rv3(rng), rv3(rng)); if m.determinant().n != 0 { break m; } }),
                                      _ => { let c = |rng: &mut Rng| Vector4::new(small(rng), small(rng), small(rng), small(rng));
@@ -1563,7 +1574,16 @@ fn cover_hom(profile: &str, p: &Pools, rng: &mut Rng, out: &mut Vec<String>, pid
                     _ => Val::Nil,
                 });
             }
+            // nlerp of exactly orthogonal quaternions may take either arc (the sign of a rounded zero decides)
+            if *op == "nlerp" { if let (Val::Q(x), Val::Q(y)) = (&a[4], &a[5]) { if x.dot(*y).n == 0 { continue; } } }
             if kc <= 5 { emit1s("hom_proj", a, F2, out, pid); } else { emit1("hom_proj", a, out, pid); }
+        } } } }
+    }
+    if profile == "C13" {
+        // atan2 is homogeneous of degree 0 in its pair of arguments, however small or large they are
+        for unit in ["Rad", "Deg"] { for kc in [0i64, 4, 5, 6, 7, 8, 9, 10, 11, 12, 13] { for _ in 0..2 {
+            if kc == 10 { continue; }
+            emit1("hom_proj", vec![t("atan2"), t("m@s"), Val::I(kc), Val::I(0), t(unit), vs(small_nz(rng)), vs(small_nz(rng))], out, pid);
         } } }
     }
 }
@@ -1573,6 +1593,7 @@ fn cover_proj(profile: &str, p: &Pools, rng: &mut Rng, out: &mut Vec<String>, pi
     cover_scale(profile, p, rng, out, pid);
     cover_hom(profile, p, rng, out, pid);
     if matches!(profile, "C01" | "C03" | "C04" | "C11" | "C12") { cover_hom(&format!("{}s", profile), p, rng, out, pid); }
+    if profile == "C13" { cover_hom("C13", p, rng, out, pid); }
     match profile {
         "C15" => {
             for kind in ["quat", "basis3", "arc"] { for anti in [false, true] {
@@ -1618,11 +1639,14 @@ fn cover_proj(profile: &str, p: &Pools, rng: &mut Rng, out: &mut Vec<String>, pi
                 }
             }
             for kind in ["Matrix4", "Matrix4_invert", "Matrix3", "Matrix3_invert", "DecQ", "Dec3", "DecQ_vector"] {
-                let mut scales = vec![q(3, 1_000_000), q(-5, 2_000_000), q(1, 100_000), q(-1, 10_000), q(1, 250)];
+                let mut scales = vec![q(3, 1_000_000), q(-5, 2_000_000), q(1, 100_000), q(-1, 10_000), q(1, 250), q(1, 8), q(3, 2)];
                 if kind.starts_with("Matrix") { scales.push(q(1, 10_000_000)); scales.push(q(-1, 100_000_000)); }
                 for sc in scales {
                     let nz3 = |rng: &mut Rng| Vector3::new(small_nz(rng), small_nz(rng), small_nz(rng));
                     emit1s("tiny_inv_proj", vec![t(kind), vs(sc), Val::Q(uq(p, rng)), Val::V3(nz3(rng)), Val::V3(nz3(rng))], F2, out, pid);
+                    for dexp in [2i64, 4, 6] {
+                        emit1s("tiny_inv_proj", vec![t(kind), vs(sc), Val::Q(uq(p, rng)), Val::V3(nz3(rng)), Val::V3(nz3(rng)), Val::I(dexp)], F2, out, pid);
+                    }
                 }
             }
         }
@@ -1653,10 +1677,11 @@ fn cover_proj(profile: &str, p: &Pools, rng: &mut Rng, out: &mut Vec<String>, pi
                 emit1s("near_sing_proj", vec![m, Val::I(gc)], if gc <= 1 { F2 } else { &["Q", "f64"] }, out, pid);
             } } }
         }
-        "C06" => {
+        "C05" | "C06" => {
             let (z, o) = (q(0, 1), q(1, 1));
             let e = [Vector3::new(o, z, z), Vector3::new(z, o, z), Vector3::new(z, z, o)];
-            for ty in ROT3 { for route in ["direct", "invert", "compose"] { for tc in 0..4 { for dc in [1i64, 8, 9, 11] {
+            for ty in ROT3 { for route in ["direct", "invert", "compose", "via_quat", "via_mat3", "via_basis3"] { for tc in 0..4 { for dc in [1i64, 4, 5, 6, 8, 9, 11] {
+                if (route == "via_quat" && *ty == "Quaternion") || (route == "via_mat3" && (*ty == "Matrix3" || *ty == "Matrix4")) || (route == "via_basis3" && (*ty == "Basis3" || *ty == "Matrix4")) { continue; }
                 let i = rng.below(3);
                 emit1("tilt_rot_proj", vec![t(ty), t(route), Val::V3(e[i]), Val::V3(e[(i + 1) % 3]), Val::V3(uv3(p, rng)), Val::I(dc), Val::I(tc)], out, pid);
             } } } }
@@ -1732,12 +1757,12 @@ fn cover_proj(profile: &str, p: &Pools, rng: &mut Rng, out: &mut Vec<String>, pi
                 ("tf_look_at", "dep", "Dec3"), ("tf_look_at", "rh", "Dec3"), ("tf_look_at", "lh", "Dec3")];
             for (inner, form, ty) in entries2 {
                 let at = inner == "mat4_look_at" || inner == "tf_look_at";
-                for (ue, de) in [(-17i64, 0i64), (-30, 0), (17, 0), (0, -17), (-9, 9), (3, -3), (0, 17)] {
-                    if at && de < 0 { continue; }      // center = eye + dir * 10^de would be absorbed by the eye
+                for (ue, de) in [(-17i64, 0i64), (-30, 0), (17, 0), (0, -17), (-9, 9), (3, -3), (0, 17), (0, -9), (0, -12)] {
+                    // (for the point-based forms a shrunken direction needs the eye at the origin: center = eye + dir * 10^de is absorbed otherwise)
                     let iv = |rng: &mut Rng| Vector3::new(Q::int(rng.range(-6, 6) as i128), Q::int(rng.range(-6, 6) as i128), Q::int(rng.range(-6, 6) as i128));
                     // oblique: up neither parallel nor perpendicular to dir
                     let (dir, up) = loop { let (d0, u0) = (iv(rng), iv(rng)); let c = d0.cross(u0); if (c.x.n != 0 || c.y.n != 0 || c.z.n != 0) && d0.dot(u0).n != 0 { break (d0, u0); } };
-                    let eye = if at && de > 3 { Point3::new(q(0, 1), q(0, 1), q(0, 1)) } else { Point3::from_vec(iv(rng)) };
+                    let eye = if at && (de > 3 || de < 0) { Point3::new(q(0, 1), q(0, 1), q(0, 1)) } else { Point3::from_vec(iv(rng)) };
                     let mut a = vec![t(inner), t(form), Val::I(ue), Val::I(de)];
                     match inner {
                         "mat3_look_to" => { a.push(Val::V3(dir)); a.push(Val::V3(up)); }
